@@ -2,6 +2,7 @@ package mcrt
 
 import (
 	"fmt"
+	"strings"
 	"time"
 )
 
@@ -157,6 +158,10 @@ func Verifying() bool { return verifying }
 func (e *Explorer) verify(prefix []Choice, r *Result) *Result {
 	if r.Status == StInfra {
 		e.Stats.Infra = append(e.Stats.Infra, r.Infra)
+		if strings.Contains(r.Infra, "straggler goroutines") {
+			e.stop = true // a goroutine of that execution may still be about: nothing more is executed in this process
+			e.Stats.Capped, e.Stats.CapReason = true, "a goroutine of an execution did not leave in time"
+		}
 		return r
 	}
 	if r.Status == StStalled {
